@@ -60,7 +60,47 @@ func (e *Exec) call(call *ast.CallExpr, c *Ctx, want int) []Term {
 			return r
 		}
 	}
+	// a call site the contract names ("on call Execute 1 ...") that a refactoring moved into a private helper without
+	// a contract: the helper is inlined, the call is still made on behalf of the function under verification, and the
+	// ghost update still belongs to it - provided the function's own body no longer has a call of that name and
+	// ordinal (then the clause can only mean the moved one). The update is evaluated over the variables of the function
+	// under verification, which the helper cannot change.
+	if top := topFrameOf(c.fr); top != nil && top != hf && top.contract != nil && len(top.contract.OnCall) > 0 && !e.inSpawn &&
+		c.fr.fi != nil && c.fr.fi != top.fi && c.fr.fi.Decl != nil && c.fr.fi.Decl.Body != nil && e.prog.contractFor(c.fr.fi.Obj) == nil {
+		if e.inlOrd == nil {
+			e.inlOrd = map[*ast.BlockStmt]map[*ast.CallExpr]string{}
+		}
+		body := c.fr.fi.Decl.Body
+		if e.inlOrd[body] == nil {
+			e.inlOrd[body] = callOrdinals(body)
+		}
+		if key, ok := e.inlOrd[body][call]; ok && (len(top.contract.OnCall[key+":before"]) > 0 || len(top.contract.OnCall[key+":after"]) > 0) && !e.ownCallKey(key) {
+			if !e.movedNoted[key] {
+				if e.movedNoted == nil {
+					e.movedNoted = map[string]bool{}
+				}
+				e.movedNoted[key] = true
+				e.note("call site %s named by the contract now sits in the inlined helper %s: its ghost updates are applied there", key, c.fr.fi.Decl.Name.Name)
+			}
+			tc := &Ctx{st: c.st, fr: top, spec: false, bound: c.bound, old: c.old}
+			e.ghostAt(tc, top, key+":before")
+			r := e.call2(call, c, want)
+			tc.st = c.st
+			e.ghostAt(tc, top, key+":after")
+			return r
+		}
+	}
 	return e.call2(call, c, want)
+}
+
+// ownCallKey: does the body of the function under verification itself contain the call site "name:ordinal"?
+func (e *Exec) ownCallKey(key string) bool {
+	for _, k := range e.callOrd {
+		if k == key {
+			return true
+		}
+	}
+	return false
 }
 
 // ghostAt runs the ghost assignments attached to a call site of the function under verification.
